@@ -244,6 +244,18 @@ def _oracle(engine, result, case, drive):
     if terminal != [state]:
         result.violate('terminal_notification', f'{state}:{"+".join(terminal) or "none"}',
                        f'terminal notifications {terminal} for a process that ended {state}')
+    payload = [e[3] for e in events if e[0] == 'notify' and e[2] == state]
+    if payload:
+        got = payload[0][0] if payload[0] else None
+        if state == 'finished':
+            want = programs.freeze(proc.outputs)
+        elif state == 'excepted':
+            want = str(proc.exception())
+        else:
+            want = programs.freeze(proc.killed_msg())
+        if got != want:
+            result.violate('terminal_notification', f'payload:{state}', f'the {state} notification carried {got!r}, the process '
+                                                                        f'reports {want!r}')
     if engine.opts.get('oneshot'):
         result.counters['probe:listener_removes_itself_in_terminal_notification'] += 1
         second = [e[2] for e in events if e[0] == 'notify2' and e[2] in ('finished', 'excepted', 'killed')]
